@@ -162,6 +162,7 @@ def run(chk):
     from . import twins
     twins.rule_twin_arms(chk, P, 'X2', floor=20)
     twins.rule_common_flag(chk, P, 'Z1', floor=6)
+    twins.rule_wrapper_constants(chk, P, 'X3', floor=150)
     run_r4(chk, P)
     # R3b shared with C20
     from . import c20
